@@ -93,7 +93,16 @@ static inline std::uint64_t getticks() {
   #error "Unsupported architecture"
 #endif
 
+#if defined(MPOETER_XENIUM_VERIF)
+inline std::uint64_t (*verif_random_hook)() = nullptr;
+#endif
+
 inline std::uint64_t random() {
+#if defined(MPOETER_XENIUM_VERIF)
+  if (verif_random_hook) {
+    return verif_random_hook();
+  }
+#endif
   return getticks() >> 4;
 }
 } // namespace xenium::utils
